@@ -32,6 +32,7 @@ func specC03() *propertySpec {
 			{"C03-R7", "input-not-mutated: nothing reachable from a value/String method stores through a generator field or a package-level variable", ruleC15R3},
 			{"C03-R8", "non-nil-when-disallowed: ptrGen returns nil only on the false edge of a coin whose probability is the constant 1 unless allowNil", ruleC03R8},
 			{"C03-R9", "length-control: the fields of repeat are written only by newRepeat/more/reject; more forces continue below minCount and stop at maxCount; a forced stop is set only when count >= minCount, otherwise reject raises invalid data", ruleC03R9},
+			{"C03-R10", "byte-budget: stringGen.value appends a rune only if its UTF-8 length is known (RuneLen >= 0: encodable, WriteRune writes exactly that many bytes) and fits into maxLen", ruleC03R10},
 		},
 	}
 }
@@ -819,10 +820,23 @@ func ruleC03R6(r *Run) {
 					if retCall == nil {
 						continue
 					}
+					// second result: a scalar generator yields the predeclared type (bool, int, …), so values for a
+					// named type of that kind (type Celsius float64) must still be converted: mayNeedCast must be true;
+					// the reflect-built composites already have the requested type
+					var castFlag *bool
+					for _, s := range cc.Body {
+						if rs, ok := s.(*ast.ReturnStmt); ok && len(rs.Results) == 2 {
+							if tv, ok := p.Info.Types[rs.Results[1]]; ok && tv.Value != nil && tv.Value.Kind() == constant.Bool {
+								b := constant.BoolVal(tv.Value)
+								castFlag = &b
+							}
+						}
+					}
 					asAny, ok := retCall.Fun.(*ast.SelectorExpr)
 					if !ok || asAny.Sel.Name != "AsAny" {
 						continue // composite kinds
 					}
+					r.Check("newMakeKindGen#cast."+kind, cc.Pos(), castFlag != nil && *castFlag, "values of reflect."+kind+" generators are converted to named types of that kind", "Make does not request a conversion for reflect."+kind+" (mayNeedCast is not true): for a named type of that kind the generated value has the predeclared type and Make[V] panics in its type assertion")
 					nScalar++
 					tv, ok := p.Info.Types[asAny.X]
 					good, got := false, "?"
@@ -1184,4 +1198,69 @@ func ruleC03R9(r *Run) {
 		}
 		r.Check("flipBiasedCoin#extremes", fn.Pos(), ok, "coin = f >= 1-p: p=1 always true (f >= 0), p=0 always false (f < 1)", "flipBiasedCoin is no longer f >= 1-p: probabilities 0 and 1 are not certain")
 	}
+}
+
+// ruleC03R10: the byte-length limit of StringN/StringOfN. WriteRune encodes an un-encodable rune (surrogate half,
+// > MaxRune) as the 3-byte U+FFFD while RuneLen reports -1 for it, so the budget test is only meaningful together with
+// the RuneLen >= 0 test; both must hold where the rune is appended.
+func ruleC03R10(r *Run) {
+	p := r.P
+	fn := r.MustFn("(*stringGen).value")
+	if fn == nil {
+		return
+	}
+	n := 0
+	for _, cs := range p.callsTo(fn, "(*strings.Builder).WriteRune", "(*strings.Builder).WriteString", "(*strings.Builder).WriteByte") {
+		n++
+		ru := p.expr(cs.Arg(0))
+		facts := p.facts(cs.Instr)
+		okLen, okBudget := false, false
+		for _, f := range facts {
+			if f.X == "unicode/utf8.RuneLen("+ru+")" && ((f.Op == ">=" && f.Y == "0") || (f.Op == ">" && (f.Y == "0" || f.Y == "-1"))) {
+				okLen = true
+			}
+		}
+		// structurally: a dominating guard (Len(b) + RuneLen(r)) <= / < limit
+		for _, g := range guardsOf(cs.Instr.Block()) {
+			rl := p.relOf(g)
+			lenLeft := (rl.Op == "<=" || rl.Op == "<") && strings.Contains(rl.X, "(*strings.Builder).Len(")
+			lenRight := (rl.Op == ">=" || rl.Op == ">") && strings.Contains(rl.Y, "(*strings.Builder).Len(")
+			if !lenLeft && !lenRight {
+				continue
+			}
+			cond := p.resolve(g.Cond)
+			for k := 0; k < 3; k++ {
+				if u, ok := cond.(*ssa.UnOp); ok && u.Op == token.NOT {
+					cond = p.resolve(u.X)
+				}
+			}
+			bo, ok := cond.(*ssa.BinOp)
+			if !ok {
+				continue
+			}
+			for _, side := range []ssa.Value{bo.X, bo.Y} {
+				sum, ok := p.resolve(side).(*ssa.BinOp)
+				if !ok || sum.Op != token.ADD {
+					continue
+				}
+				hasLen, hasRune := false, false
+				for _, op := range []ssa.Value{sum.X, sum.Y} {
+					if c, ok := p.resolve(op).(*ssa.Call); ok {
+						switch p.calleeKey(c.Common()) {
+						case "(*strings.Builder).Len":
+							hasLen = true
+						case "unicode/utf8.RuneLen":
+							hasRune = p.same(c.Common().Args[0], cs.Arg(0))
+						}
+					}
+				}
+				if hasLen && hasRune {
+					okBudget = true
+				}
+			}
+		}
+		r.Check("(*stringGen).value#encodable", cs.Instr.Pos(), okLen, "a rune is appended only if utf8.RuneLen(r) >= 0", "stringGen.value appends a rune without having checked utf8.RuneLen(r) >= 0: an un-encodable rune is written as the 3-byte U+FFFD while the byte accounting uses -1, so the string can exceed maxLen and contains a rune the element generator never produced")
+		r.Check("(*stringGen).value#fits", cs.Instr.Pos(), okBudget, "a rune is appended only if the bytes written so far plus its length stay within maxLen", "stringGen.value appends a rune without the test b.Len()+RuneLen(r) <= maxLen: the byte-length limit of StringN/StringOfN is not enforced")
+	}
+	r.Floor("appends in stringGen.value", n, 1)
 }
